@@ -339,7 +339,7 @@ fn run_cli_set<S: vmodel::session::CmdSet>(c: &CliCase) -> Result<bool, (String,
 }
 
 fn line_pool() -> Vec<&'static str> {
-    vec!["a", "b", "é", "ab", "a b", "₿", "abc", "get", "set x", "𝄞𝄞", "help", "abcdefgh", "Жук ест", "0123456789abcdef", "a", "b", "ab", "  ", " a", "  get", "a ", "x y z w", "get-  ", "get-", "ge ", "ex  ", "ст ", "he  ", "get-led 1", "0123456789012345678901234567890123456789ABCDE"]
+    vec!["a", "b", "é", "ab", "a b", "₿", "abc", "get", "set x", "𝄞𝄞", "help", "abcdefgh", "Жук ест", "0123456789abcdef", "a", "b", "ab", "  ", " a", "  get", "a ", "x y z w", "get-  ", "get-", "ge ", "ex  ", "ст ", "he  ", "get-led 1", "a\u{85}b", "\u{80}", "tab\u{9f}", "0123456789012345678901234567890123456789ABCDE"]
 }
 
 fn cli_case_strategy() -> impl Strategy<Value = CliCase> {
